@@ -16,6 +16,8 @@ struct seq_t                          //@struct vector_UINT8=seq_t<UINT8>|unsign
    size_t m_cap;                      //@f
 
    size_t size() const { return m_size; }
+   T *data() { return m_data; }
+   const T *data() const { return m_data; }
    bool empty() const { return m_size == 0; }
    T &operator[](size_t i)
    {
